@@ -2,7 +2,7 @@
   C18: the character stream of `next` and the reader-failure invariant.
 -/
 import CedarGoProofs.Lemmas.C18Next
-namespace CedarGo.Text
+namespace CedarGo.Text.Lx
 
 /-- SPEC of the character stream: decode the whole byte string rune by rune; after the end, EOF for ever.
     Entries are (rune, width, offset after the rune). -/
@@ -206,4 +206,4 @@ theorem flatten_filter_nonempty (cs : List (List UInt8)) : (cs.filter (fun c => 
     | nil => simpa using ih
     | cons x xs => simp [List.filter_cons, ih]
 
-end CedarGo.Text
+end CedarGo.Text.Lx
